@@ -7,6 +7,7 @@ package namematcher
 import (
 	"fmt"
 	"math/rand"
+	"strings"
 	"testing"
 
 	vh "git.torproject.org/pluggable-transports/snowflake.git/v2/common/zzverif"
@@ -15,6 +16,27 @@ import (
 var c06parts = []string{"a", "b", ".", "net", "snowflake", "torproject", "-", "x", "", "^", "$", "bridge", "01"}
 
 func c06host(rng *rand.Rand) string {
+	return c06case(rng, c06hostLower(rng))
+}
+
+// c06case: hostnames and patterns are byte strings; letter case is part of them.
+func c06case(rng *rand.Rand, s string) string {
+	switch rng.Intn(5) {
+	case 0:
+		return strings.ToUpper(s)
+	case 1:
+		b := []byte(s)
+		for i := range b {
+			if rng.Intn(3) == 0 && b[i] >= 'a' && b[i] <= 'z' {
+				b[i] -= 32
+			}
+		}
+		return string(b)
+	}
+	return s
+}
+
+func c06hostLower(rng *rand.Rand) string {
 	switch rng.Intn(6) {
 	case 0:
 		return "snowflake.torproject.net"
@@ -30,6 +52,9 @@ func c06host(rng *rand.Rand) string {
 
 func c06pattern(rng *rand.Rand, host string) string {
 	p := host
+	if rng.Intn(3) == 0 {
+		p = strings.ToLower(host) // same name, different letter case than the hostname tried
+	}
 	switch rng.Intn(5) {
 	case 0:
 		p = c06host(rng)
